@@ -9,6 +9,7 @@ from . import child, digest as D
 from .procs import fork_run
 
 PROP = "C12"
+USES_COLD = True
 IO_KINDS = ["ENOENT", "EACCES", "EIO", "EMFILE", "EISDIR", "tear_line", "tear_byte", "flip"]
 API_OPS = ["dumps", "call", "digraph", "attrs", "iter", "deepcopy", "match"]
 MUTS = ["op_append", "op_del", "op_replace", "op_rename", "arg_set", "arg_append", "kwarg_set",
@@ -314,6 +315,9 @@ def run(plan, ctx):
                 bump("intr_where:" + str(ev.get("where", "?")).split(":")[0])
             continue    # I2: nothing compared on an interrupted step
         prun = ctx.get("pristine_run") or fork_run
+        if plan.get("cold") and ctx.get("cold") is not None:
+            prun = ctx["cold"].run
+        bump("pristine_cold" if prun is not fork_run else "pristine_warm")
         P = prun(child.run_plan, steps, ctx["root"], ctx["scratch"], mode="pristine", only=i)
         pev = P[-1]
         log.append(["P", i, D.sha(pev)])
